@@ -102,6 +102,7 @@ struct vk_cfg {
   int faults_on, fault_bound;
   int time_on, time_bound, time_jump;
   int total_bound;     /* if > 0: cap on scheduling + fault + clock deviations together */
+  int foreign_reaper;  /* waitpid may also answer ECHILD: somebody else in the application (SIGCHLD ignored, a waitpid(-1) loop) reaped the child first */
   int vlimit;          /* virtual RLIMIT_NOFILE (soft) reported to the library */
   int elapsed_inf_n;   /* elapsed menu while blocked without OS timeout */
   int elapsed_inf[4];
